@@ -245,8 +245,10 @@ class ModelCacheMixin:
             # We'll need more intelligence here to handle it
             return combined
 
-        model_lists = [self._models]
-        model_lists.extend(o._models for o in others)
+        # a solver's cached models may still assign variables that its (simplified) constraints no longer mention and
+        # that another solver is now in charge of: every part only contributes the variables it is responsible for
+        model_lists = [[m.filter(self.variables) for m in self._models]]
+        model_lists.extend([m.filter(o.variables) for m in o._models] for o in others)
         combined._models.update(
             itertools.starmap(ModelCache.combine, itertools.islice(itertools.product(*model_lists), len(self._models)))
         )
